@@ -16,7 +16,7 @@
    * the proof does not go "through C08_refines": the model uses the flat union of keys directly
      (C08's statement, exercised by the correspondence on every run). *)
 From Coq Require Import NArith List Bool.
-From DvcData Require Import Base.Val Base.PyBase Gen.PyTypes Gen.IDiff Model.IdxCheckout Proofs.IdxCheckoutProofs Proofs.IdxCheckoutConverge Proofs.IdxCheckoutPhases Proofs.IdxCheckoutFinal Proofs.IdxCheckoutHistory.
+From DvcData Require Import Base.Val Base.PyBase Gen.PyTypes Gen.IDiff Model.IdxCheckout Proofs.IdxCheckoutProofs Proofs.IdxCheckoutConverge Proofs.IdxCheckoutPhases Proofs.IdxCheckoutFinal Proofs.IdxCheckoutHistory Gen.IdxCompare Gen.IdxApply Proofs.IdxApplyTie.
 Import ListNotations.
 Open Scope N_scope.
 
@@ -140,3 +140,23 @@ Theorem C09_retry_converges : forall lt1 delete1 avail1 tr1 order1 odc1 w t lt a
   converged lt avail tr order odc (o_ws (checkout lt1 delete1 avail1 tr1 order1 odc1 w t)) t.
 Proof. exact retry_converges. Qed.
 Print Assumptions C09_retry_converges.
+
+(* ---- the tie to the source: the model's [apply] runs the phases of index/checkout.py apply() in the
+   order the translator reads from /repo on every run (Gen/IdxApply.v, unit idxapply): [g_apply] folds a
+   phase interpreter over the GENERATED list; a phase after a create-dirs phase that raised is not run ---- *)
+Theorem C09_apply_is_source_apply :
+  forall (lt : link) (avail : list bytes) (order order_dc : list key) (p : list action * list key) (w : ws),
+    g_apply lt avail order order_dc p w = apply lt avail order order_dc p w.
+Proof. exact apply_is_source_apply. Qed.
+Print Assumptions C09_apply_is_source_apply.
+
+Theorem C09_source_apply_facts :
+  apply_phases = [PDirsFailed; PDeleteFiles; PDeleteDirs; PCreateDirs; PCreateFiles; PChmod] /\
+  delete_dirs_deepest_first = true /\ delete_dirs_swallows_oserror = true /\ create_dirs_exist_ok = true /\
+  chmod_local_only = true /\ chmod_stat_raises = true /\ chmod_oserror_swallowed = true /\
+  create_no_hash_reported_and_skipped = true /\ create_symlink_precheck_reports_missing_source = true /\
+  create_makes_parents = true /\ create_transfer_errors_forwarded = true /\
+  state_rows_skip_failed = true /\ state_rows_skip_missing = true /\ state_rows_local_only = true /\
+  meta_update_skips_failed = true.
+Proof. exact source_apply_facts. Qed.
+Print Assumptions C09_source_apply_facts.
